@@ -4,7 +4,7 @@ import json, os, re, subprocess, sys, time, hashlib, signal
 from concurrent.futures import ThreadPoolExecutor
 
 ROOT = os.path.dirname(os.path.dirname(os.path.abspath(__file__)))
-KNOWN = os.path.join(ROOT, 'known_findings.jsonl')
+KNOWN = os.environ.get('VERIF_KNOWN_FILE', os.path.join(ROOT, 'known_findings.jsonl'))   # the override exists only to test the mechanism
 NCPU = int(os.environ.get('VERIF_JOBS', os.cpu_count() or 4))
 # Normal operation: everything lives in /verif and the crate under test is /repo.
 # Shadow operation (used only by lib/seedeval.py to evaluate seeded changes in scratch worktrees without touching
